@@ -316,6 +316,30 @@ pub fn run(a: &Args) -> Report {
     let quick = a.quick();
     let threads = a.threads.max(1);
     let mut total = Report::new("C19");
+    // The very first BEP42 computations of this process (nothing has been computed, cached or memoised yet), for
+    // addresses whose masked bits are all zero and r values whose low three bits are zero: the all-zero input of
+    // the digest. Every later point of the sweep runs in a process that has computed other digests before.
+    {
+        let mut rng = Rng::new(crate::rng::mix(a.seed, 0xf125));
+        let zero_masked = [[8u8, 0, 0, 0], [4, 16, 64, 0], [100, 64, 0, 0], [64, 0, 0, 0], [12, 240, 192, 0], [200, 16, 0, 0]];
+        for k in 0..16 {
+            let ip = Ipv4Addr::from(zero_masked[(rng.usize(zero_masked.len()) + k) % zero_masked.len()]);
+            let rbyte = (rng.usize(32) * 8) as u8;
+            let id = bep42_mint(ip, rbyte, rng.array());
+            total.eval();
+            total.count("bep42_first_computations_of_the_process");
+            let case = json!({"class":"bep42","ip": ip.to_string(), "r": rbyte, "id": crate::bencode::hex(&id)});
+            if Id::from(id).is_valid_for_ip(ip) != bep42_valid(&id, ip) {
+                total.violation("bep42/first-computation-of-the-process", "is_valid_for_ip disagrees with the reference CRC32C on the first computations a process makes (masked address bits and r & 7 all zero)", case.clone(), json!({"computation": k, "reference_says_valid": bep42_valid(&id, ip)}));
+                break;
+            }
+            let minted = Id::from_ipv4(ip);
+            if !bep42_valid(minted.as_bytes(), ip) && !ip_exempt(ip) {
+                total.violation("bep42/first-computation-of-the-process/from_ipv4", "from_ipv4 produced an id that the reference does not accept for that address, on the first computations a process makes", json!({"class":"bep42","ip": ip.to_string(), "id": crate::bencode::hex(minted.as_bytes())}), json!({"computation": k}));
+                break;
+            }
+        }
+    }
     let parts: Vec<Report> = std::thread::scope(|s| {
         let hs: Vec<_> = (0..threads)
             .map(|tid| {
